@@ -27,6 +27,8 @@ Dom(e) == "dom" \in DOMAIN e /\ e.dom    \* arguments are inside the properties'
 Unchanged(s, t) == s.st.dg = t.st.dg
 HasObs(x, k) == k \in DOMAIN x.obs
 ArgSet(e) == SeqToSet(e.paths)
+RECURSIVE JoinLines(_)
+JoinLines(sq) == IF Len(sq) = 0 THEN "" ELSE IF Len(sq) = 1 THEN sq[1] ELSE sq[1] \o "%0A" \o JoinLines(Tail(sq))
 NoDupArgs(e) == Cardinality(SeqToSet(e.paths)) = Len(e.paths)   \* repeated arguments: first occurrence acts, later ones may fail
 
 ----------------------------------------------------------------------------
@@ -376,7 +378,7 @@ StageClausesW(s, e, t, connS, connT) ==
     <<
     Cl("C04_AddExact", {"C04", "C17", "C02"}, isAdd /\ Ok(e),
         isAdd /\ Ok(e) => AddExact(s, t, ArgSet(e))),
-    Cl("C04_AddRefuse", {"C04"}, isAdd /\ \E a \in ArgSet(e) : ~ArgKnownToAdd(S, a),
+    Cl("C04_AddRefuse", {"C04", "C18"}, isAdd /\ \E a \in ArgSet(e) : ~ArgKnownToAdd(S, a),
         isAdd /\ (\E a \in ArgSet(e) : ~ArgKnownToAdd(S, a)) => Refused(e) /\ Unchanged(s, t)),
     Cl("C04_AddAccept", {"C04", "C06"}, isAdd /\ Len(e.paths) > 0 /\ NoDupArgs(e) /\ \A a \in ArgSet(e) : (OnDiskFile(S, a) \/ OnDiskDir(S, a) \/ Tracked(S, a)),
         isAdd /\ Len(e.paths) > 0 /\ NoDupArgs(e) /\ (\A a \in ArgSet(e) : (OnDiskFile(S, a) \/ OnDiskDir(S, a) \/ Tracked(S, a))) => Ok(e)),
@@ -430,6 +432,11 @@ StageClausesW(s, e, t, connS, connT) ==
             /\ Flatten(T, id) = IdxPairs(S.idx)
             /\ \A tid \in TreesOf(T, id) : IsTree(T, tid) /\ TreeWellFormed(Obj(T, tid))
             /\ T.idx = S.idx /\ T.refs = S.refs /\ T.head = S.head /\ T.wt = S.wt),
+    (* hash-object with several files prints, line by line, the blob id of each file's own bytes *)
+    Cl("C01_HashObjectCmd", {"C01"}, e.ev = "hashobject" /\ Ok(e) /\ "out" \in DOMAIN e /\ \A i \in 1..Len(e.paths) : e.paths[i] \in DOMAIN S.wt,
+        e.ev = "hashobject" /\ Ok(e) /\ "out" \in DOMAIN e /\ (\A i \in 1..Len(e.paths) : e.paths[i] \in DOMAIN S.wt) =>
+            /\ e.out.esc = JoinLines([i \in 1..Len(e.paths) |-> BlobIdOf(S.wt[e.paths[i]])])
+            /\ Unchanged(s, t)),
     Cl("C17_NoIgnoredStaged", {"C17"}, e.ev = "add" /\ IsCmd(e),
         e.ev = "add" /\ IsCmd(e) =>
             \A x \in IdxPairs(T.idx) \ IdxPairs(S.idx) : ~InMeta(x[1]) /\ ~MustIgnore(S, x[1])),
